@@ -265,7 +265,9 @@ func (p Proxy) ServeHTTP(w http.ResponseWriter, r *http.Request) (int, error) {
 			return 0, nil
 		}
 
-		if backendErr == httpserver.ErrMaxBytesExceeded {
+		// the transport hands the body's read error back wrapped (in a
+		// *net.OpError when it fails while being copied to the connection)
+		if errors.Is(backendErr, httpserver.ErrMaxBytesExceeded) {
 			return http.StatusRequestEntityTooLarge, backendErr
 		}
 
